@@ -158,6 +158,42 @@ func checkNames(res *Result, d [][][]nslot, want []int, np int, what string, cs 
 			res.count("faulted_snapshots_checked", 1)
 		}
 	}
+	// the same goroutines as the operations of a race report whose creation stack for goroutine 2
+	// repeats argument values of its stack: the labelling is that of the operation stacks, and (as the
+	// code stands, and as real reports - which print "()" - never show) creation frames carry no names
+	if len(d) >= 2 {
+		var rb strings.Builder
+		rb.WriteString("==================\nWARNING: DATA RACE\n")
+		for gi, g := range d {
+			if gi == 0 {
+				fmt.Fprintf(&rb, "Read at 0x00c000010000 by goroutine %d:\n", gi+1)
+			} else {
+				fmt.Fprintf(&rb, "Previous write at 0x00c000010000 by goroutine %d:\n", gi+1)
+			}
+			for fi, f := range g {
+				fmt.Fprintf(&rb, "  main.f%d(%s)\n      /a/b.go:%d +0x1\n", fi, printSlots(f, np), 10+fi)
+			}
+			rb.WriteString("\n")
+		}
+		fmt.Fprintf(&rb, "Goroutine 2 (running) created at:\n  main.spawn(%s)\n      /a/c.go:5 +0x1\n==================\n", printSlots(d[1][0], np))
+		rs, _, _ := stack.ScanSnapshot(strings.NewReader(rb.String()), discard{}, &stack.Opts{NameArguments: true})
+		if rs != nil && len(rs.Goroutines) == len(d) {
+			rgot, _ := walkNames(rs)
+			if !reflect.DeepEqual(rgot, got) {
+				res.violation(Finding{Property: "C15", Aspect: "race-labelling", What: what + ": as operations of a race report (with a creation stack that repeats argument values) the goroutines are labelled differently from the same goroutines in a dump", Case: cs, Input: []byte(rb.String()), Expected: got, Observed: rgot})
+			}
+			for _, g := range rs.Goroutines {
+				for i := range g.CreatedBy.Calls {
+					for _, v := range g.CreatedBy.Calls[i].Args.Values {
+						if v.Name != "" {
+							res.drift(Finding{Property: "C15", Aspect: "created-named", What: what + ": an argument of a creation frame of a race report carries a pseudo-name; the specification (and the code it was written from) leaves creation frames unnamed", Case: cs, Input: []byte(rb.String())})
+						}
+					}
+				}
+			}
+			res.count("race_form_labellings_checked", 1)
+		}
+	}
 	offNames, _ := walkNames(off)
 	for _, n := range offNames {
 		if n != 0 {
